@@ -32,6 +32,16 @@ func scalarArg(args []Value, i int) Term {
 }
 
 func (x *Exec) special(s *State, fr *Frame, fn *types.Func, name string, recv Value, args []Value, call *ast.CallExpr, sig *types.Signature) (Value, bool) {
+	// the three error packages in use share one model
+	if fn.Pkg() != nil && recv == nil {
+		switch fn.Pkg().Path() {
+		case "github.com/pkg/errors", "github.com/cockroachdb/errors", "errors":
+			name = "github.com/cockroachdb/errors." + fn.Name()
+			if fn.Name() == "Is" || fn.Name() == "Join" {
+				name = "errors." + fn.Name()
+			}
+		}
+	}
 	switch {
 	case name == "errors.New" || name == "fmt.Errorf" ||
 		name == "github.com/cockroachdb/errors.New" || name == "github.com/cockroachdb/errors.Newf" ||
@@ -82,7 +92,7 @@ func (x *Exec) special(s *State, fr *Frame, fn *types.Func, name string, recv Va
 		if !ok {
 			unsup("io.ReadFull into opaque buffer")
 		}
-		x.havocRange(s, types.Typ[types.Uint8], buf.Ptr, buf.Len)
+		x.havocRange(s, types.Typ[types.Uint8], buf.Rgn, buf.Off, buf.Len)
 		n := x.ctx.Fresh("readfull$n", SBV64)
 		e := x.ctx.Fresh("readfull$err", SErr)
 		s.assume(Sle(I64(0), n))
@@ -100,7 +110,7 @@ func (x *Exec) special(s *State, fr *Frame, fn *types.Func, name string, recv Va
 		if !ok {
 			unsup("crc of opaque bytes")
 		}
-		return &Scalar{T: x.ctx.UF("crc$new", BV(32), x.mem(s, "uint8", BV(8)), b.Ptr, b.Len)}, true
+		return &Scalar{T: x.ctx.UF("crc$new", BV(32), x.ctx.Share(x.inner(s, "uint8", BV(8), b.Rgn)), b.Off, b.Len)}, true
 	case name == "(github.com/cockroachdb/pebble/internal/crc.CRC).Value":
 		return &Scalar{T: x.ctx.UF("crc$value", BV(32), recv.(*Scalar).T)}, true
 	case name == "(github.com/cockroachdb/pebble/internal/crc.CRC).Update":
@@ -108,7 +118,7 @@ func (x *Exec) special(s *State, fr *Frame, fn *types.Func, name string, recv Va
 		if !ok {
 			unsup("crc of opaque bytes")
 		}
-		return &Scalar{T: x.ctx.UF("crc$update", BV(32), recv.(*Scalar).T, x.mem(s, "uint8", BV(8)), b.Ptr, b.Len)}, true
+		return &Scalar{T: x.ctx.UF("crc$update", BV(32), recv.(*Scalar).T, x.ctx.Share(x.inner(s, "uint8", BV(8), b.Rgn)), b.Off, b.Len)}, true
 	case name == "bytes.Equal":
 		if x.opaque {
 			a, b := scalarArg(args, 0), scalarArg(args, 1)
@@ -133,6 +143,60 @@ func (x *Exec) special(s *State, fr *Frame, fn *types.Func, name string, recv Va
 		}
 		x.note("trusted", "bytes.Compare: sign of the lexicographic comparison, result in {-1,0,1}")
 		return &Scalar{T: x.bytesCompare(s, a, b)}, true
+	case name == "github.com/cockroachdb/crlib/crbytes.CommonPrefix":
+		x.note("trusted", "crbytes.CommonPrefix(a, b): length of the longest common prefix")
+		a, ok1 := args[0].(*SliceV)
+		b, ok2 := args[1].(*SliceV)
+		if !ok1 || !ok2 {
+			unsup("CommonPrefix on opaque slices")
+		}
+		ma := x.ctx.Share(x.inner(s, "uint8", BV(8), a.Rgn))
+		mb := x.ctx.Share(x.inner(s, "uint8", BV(8), b.Rgn))
+		// a function of the two byte sequences: equal arguments give equal results
+		r := x.ctx.Share(x.ctx.UF("commonprefix", SBV64, ma, a.Off, a.Len, mb, b.Off, b.Len))
+		s.assume(Sle(I64(0), r))
+		s.assume(Sle(r, a.Len))
+		s.assume(Sle(r, b.Len))
+		x.ctx.n++
+		i := fmt.Sprintf("i?%d", x.ctx.n)
+		at := func(m, p Term, idx string) string { return fmt.Sprintf("(select %s (bvadd %s %s))", m.S, p.S, idx) }
+		s.assume(Term{S: fmt.Sprintf("(forall ((%s (_ BitVec 64))) (=> (and (bvsle (_ bv0 64) %s) (bvslt %s %s)) (= %s %s)))", i, i, i, r.S, at(ma, a.Off, i), at(mb, b.Off, i)), Sort: SBool})
+		s.assume(Implies(And(Slt(r, a.Len), Slt(r, b.Len)), Ne(Term{S: at(ma, a.Off, r.S), Sort: BV(8)}, Term{S: at(mb, b.Off, r.S), Sort: BV(8)})))
+		return &Scalar{T: r}, true
+	case name == "sort.Search":
+		// Assumed contract (holds for every predicate, monotone or not, by the binary-search
+		// invariant f(i-1) == false && f(j) == true): 0 <= r <= n, r == n || f(r),
+		// r == 0 || !f(r-1); f is only called with arguments in [0, n).
+		x.note("trusted", "sort.Search(n, f): 0 <= r <= n, (r == n || f(r)), (r == 0 || !f(r-1)); f called only on [0,n)")
+		n := scalarArg(args, 0)
+		fsig, _ := fr.info.TypeOf(call.Args[1]).Underlying().(*types.Signature)
+		if fsig == nil {
+			return nil, false
+		}
+		// obligations inside f for an arbitrary argument in range
+		{
+			t := s.fork()
+			k := x.ctx.Fresh("search$k", SBV64)
+			t.assume(Sle(I64(0), k))
+			t.assume(Slt(k, n))
+			x.callValue(t, fr, args[1], fsig, []Value{&Scalar{T: k}}, call, "f")
+		}
+		r := x.ctx.Fresh("search$r", SBV64)
+		s.assume(Sle(I64(0), r))
+		s.assume(Sle(r, n))
+		evalAt := func(arg Term, guard Term) Term {
+			t := s.fork()
+			t.assume(guard)
+			x.noObl++
+			defer func() { x.noObl-- }()
+			v := x.callValue(t, fr, args[1], fsig, []Value{&Scalar{T: arg}}, call, "f")
+			return v.(*Scalar).T
+		}
+		inRange := Slt(r, n)
+		s.assume(Implies(inRange, evalAt(r, inRange)))
+		pos := Slt(I64(0), r)
+		s.assume(Implies(pos, Not(evalAt(Sub64(r, I64(1)), pos))))
+		return &Scalar{T: r}, true
 	case name == "cmp.Compare":
 		a, b := scalarArg(args, 0), scalarArg(args, 1)
 		if !a.Sort.IsBV() {
@@ -199,28 +263,30 @@ func (x *Exec) readGlobalErr(s *State, pkg, name string) Term {
 
 // bytesEqual: len equal and all bytes equal (quantified).
 func (x *Exec) bytesEqual(s *State, a, b *SliceV) Term {
-	mem := x.mem(s, "uint8", BV(8))
+	ma := x.ctx.Share(x.inner(s, "uint8", BV(8), a.Rgn))
+	mb := x.ctx.Share(x.inner(s, "uint8", BV(8), b.Rgn))
 	x.ctx.n++
 	i := fmt.Sprintf("i?%d", x.ctx.n)
 	all := fmt.Sprintf("(forall ((%s (_ BitVec 64))) (=> (and (bvsle (_ bv0 64) %s) (bvslt %s %s)) (= (select %s (bvadd %s %s)) (select %s (bvadd %s %s)))))",
-		i, i, i, a.Len.S, mem.S, a.Ptr.S, i, mem.S, b.Ptr.S, i)
+		i, i, i, a.Len.S, ma.S, a.Off.S, i, mb.S, b.Off.S, i)
 	return And(Eq(a.Len, b.Len), Term{S: all, Sort: SBool})
 }
 
 // bytesCompare introduces the result r with its defining lexicographic facts.
 func (x *Exec) bytesCompare(s *State, a, b *SliceV) Term {
-	mem := x.mem(s, "uint8", BV(8))
+	ma := x.ctx.Share(x.inner(s, "uint8", BV(8), a.Rgn))
+	mb := x.ctx.Share(x.inner(s, "uint8", BV(8), b.Rgn))
 	r := x.ctx.Fresh("bytescmp", SBV64)
 	k := x.ctx.Fresh("bytescmp$k", SBV64) // length of the common prefix
-	at := func(p Term, i string) string { return fmt.Sprintf("(select %s (bvadd %s %s))", mem.S, p.S, i) }
+	at := func(m, p Term, i string) string { return fmt.Sprintf("(select %s (bvadd %s %s))", m.S, p.S, i) }
 	x.ctx.n++
 	i := fmt.Sprintf("i?%d", x.ctx.n)
 	s.assume(Sle(I64(0), k))
 	s.assume(Sle(k, a.Len))
 	s.assume(Sle(k, b.Len))
-	s.assume(Term{S: fmt.Sprintf("(forall ((%s (_ BitVec 64))) (=> (and (bvsle (_ bv0 64) %s) (bvslt %s %s)) (= %s %s)))", i, i, i, k.S, at(a.Ptr, i), at(b.Ptr, i)), Sort: SBool})
-	ak := Term{S: at(a.Ptr, k.S), Sort: BV(8)}
-	bk := Term{S: at(b.Ptr, k.S), Sort: BV(8)}
+	s.assume(Term{S: fmt.Sprintf("(forall ((%s (_ BitVec 64))) (=> (and (bvsle (_ bv0 64) %s) (bvslt %s %s)) (= %s %s)))", i, i, i, k.S, at(ma, a.Off, i), at(mb, b.Off, i)), Sort: SBool})
+	ak := Term{S: at(ma, a.Off, k.S), Sort: BV(8)}
+	bk := Term{S: at(mb, b.Off, k.S), Sort: BV(8)}
 	endA, endB := Eq(k, a.Len), Eq(k, b.Len)
 	s.assume(Implies(And(Not(endA), Not(endB)), Ne(ak, bk)))
 	lt := Or(And(endA, Not(endB)), And(Not(endA), Not(endB), Ult(ak, bk)))
@@ -285,7 +351,7 @@ func (x *Exec) atomic(s *State, fr *Frame, fn *types.Func, op string, recv Value
 	if fieldName == "" {
 		return nil, false
 	}
-	pv := recv.(*Scalar)
+	pv := recv.(*PtrV)
 	prefix := memName(pt.Elem())
 	if pv.Prov != "" {
 		prefix = pv.Prov
@@ -300,7 +366,7 @@ func (x *Exec) atomic(s *State, fr *Frame, fn *types.Func, op string, recv Value
 		return nil, false
 	}
 	name := prefix + "." + fieldName
-	cur := Select(x.mem(s, name, srt), pv.T)
+	cur := x.rd(s, name, srt, pv.Rgn, pv.Off)
 	conv := func(t Term) Term {
 		if t.Sort == srt {
 			return t
@@ -315,8 +381,7 @@ func (x *Exec) atomic(s *State, fr *Frame, fn *types.Func, op string, recv Value
 		return t
 	}
 	write := func(v Term) {
-		x.noteWrite(s, name, pv.T)
-		x.setMem(s, name, Store(x.mem(s, name, srt), pv.T, conv(v)))
+		x.wr(s, name, srt, pv.Rgn, pv.Off, conv(v))
 	}
 	out := func(t Term) Value {
 		rt := sig.Results().At(0).Type()
